@@ -60,6 +60,7 @@ pub fn worker_main() {
         "eq" => twins::mode_eq(&a),
         "cap" => twins::mode_cap(&a),
         "hashers" => twins::mode_hashers(&a),
+        "strkeys" => twins::mode_strkeys(&a),
         "costprobe" => cost::mode_costprobe(&a),
         other => {
             eprintln!("unknown mode {}", other);
